@@ -110,12 +110,18 @@ def AccF (pc : Option Nat) (nc : Nat) (cl : List Nat) : Prop :=
 def WBF (tr : List Ev) (pre lock bad : Bool) : Prop :=
   bad = false ∧ pre = false ∧ lockState tr = some (phaseOfLock lock)
 
-/-- `q`: "no DB-API call fails from now on, and `pool.pid` exists whenever `pool.con` does"; with the guarded
-    `_connect` (`cf.initGuard`) the latter holds unconditionally;
-    `p`: "`pool.pid` exists" (the thread has completed a `_connect` before) -/
+/-- the part of the pool invariant that does not depend on the oracle.  `p` (chosen by the theorem that uses the specs):
+    "`pool.pid` exists whenever `pool.con` does, and — with `_connect` as released (`cf.initGuard = false`), where a failed
+    initialisation leaves `pool.con` assigned — `pool.pid` exists (the thread has completed a `_connect` before)" -/
+def PF (cf : Cfg) (p : Bool) (pc : Option Nat) (pid : Bool) : Prop :=
+  p = true → (pc.isSome = true → pid = true) ∧ (cf.initGuard = false → pid = true)
+
+/-- `q`: "no DB-API call fails from now on, and `pool.pid` exists whenever `pool.con` does" -/
 def FlF (cf : Cfg) (q p : Bool) (n : Nat) (pc : Option Nat) (pid : Bool) : Prop :=
-  (q = true → (∀ i, n ≤ i → cf.fails i = false) ∧ (pc.isSome = true → pid = true)) ∧
-  (cf.initGuard = true → pc.isSome = true → pid = true) ∧ (p = true → pid = true)
+  (q = true → (∀ i, n ≤ i → cf.fails i = false) ∧ (pc.isSome = true → pid = true)) ∧ PF cf p pc pid
+
+@[simp] theorem PF_none (cf p pid) : PF cf p none pid ↔ (p = true → cf.initGuard = false → pid = true) := by simp [PF]
+@[simp] theorem PF_true (cf p pc) : PF cf p pc true ↔ True := by simp [PF]
 
 /-- the base invariant -/
 def G (cf : Cfg) (q p : Bool) (s : St) : Prop :=
@@ -155,7 +161,7 @@ theorem FlF_cases {cf q p n pc pid} (h : FlF cf q p n pc pid) :
 
 theorem FlF_pc {cf q p n pc pid} (pc' : Option Nat) (h : FlF cf q p n pc pid) (hpc : pc'.isSome = true → pc.isSome = true) :
     FlF cf q p n pc' pid :=
-  ⟨fun hq => ⟨(h.1 hq).1, fun h' => (h.1 hq).2 (hpc h')⟩, fun hg h' => h.2.1 hg (hpc h'), h.2.2⟩
+  ⟨fun hq => ⟨(h.1 hq).1, fun h' => (h.1 hq).2 (hpc h')⟩, fun hp => ⟨fun h' => (h.2 hp).1 (hpc h'), (h.2 hp).2⟩⟩
 
 theorem AccF_drop {con nc cl} (h : AccF (some con) nc cl) : AccF none nc (con :: cl) := by
   obtain ⟨h1, h2, h3, h4⟩ := h
@@ -212,17 +218,16 @@ theorem spec_poolDrop (cf : Cfg) (q p : Bool) (con : Nat) (s : St) (hG : G cf q 
     simp_all [G, PoolFr]
 
 
-@[simp] theorem FlF_false_iff {cf p n pc pid} :
-    FlF cf false p n pc pid ↔ (cf.initGuard = true → pc.isSome = true → pid = true) ∧ (p = true → pid = true) := by
+@[simp] theorem FlF_false_iff {cf p n pc pid} : FlF cf false p n pc pid ↔ PF cf p pc pid := by
   simp [FlF]
 
 theorem FlF_true_elim {cf p n pc pid} (h : FlF cf true p n pc pid) :
-    (∀ i, n ≤ i → cf.fails i = false) ∧ (pc.isSome = true → pid = true) ∧ (p = true → pid = true) :=
-  ⟨(h.1 rfl).1, (h.1 rfl).2, h.2.2⟩
+    (∀ i, n ≤ i → cf.fails i = false) ∧ (pc.isSome = true → pid = true) ∧ PF cf p pc pid :=
+  ⟨(h.1 rfl).1, (h.1 rfl).2, h.2⟩
 
 theorem FlF_true_intro {cf p n n' pc pid} (hq : ∀ i, n ≤ i → cf.fails i = false) (hn : n ≤ n')
-    (h1 : pc.isSome = true → pid = true) (h2 : p = true → pid = true) : FlF cf true p n' pc pid :=
-  ⟨fun _ => ⟨fun i hi => hq i (by omega), h1⟩, fun _ => h1, h2⟩
+    (h1 : pc.isSome = true → pid = true) (h2 : PF cf p pc pid) : FlF cf true p n' pc pid :=
+  ⟨fun _ => ⟨fun i hi => hq i (by omega), h1⟩, h2⟩
 
 theorem spec_poolRelease (cf : Cfg) (q p : Bool) (con : Nat) (s : St) (hG : G cf q p s) (hc : s.poolCon = some con) :
     wp (poolRelease cf con)
@@ -270,14 +275,14 @@ theorem spec_poolConnect (cf : Cfg) (q p : Bool) (s : St) (hG : G cf q p s) :
       have h1 := hq (s.n + 1) (by omega)
       have h2 := hq (s.n + 1 + 1) (by omega)
       have hF' : FlF cf true p (s.n + 1 + 1 + 1) (some s.nextCon) true := FlF_true_intro hq (by omega) (by simp) (by simp)
-      simp_all [poolConnect, poolConnectNew, G, PoolFr, fkAfter, dirtyAfter]
+      simp_all [poolConnect, poolConnectNew, G, PoolFr, fkAfter, dirtyAfter, PF]
     case false.false | true.false =>
       simp only [poolConnect, poolConnectNew, conClose, wp_bind, wp_getS, wp_modS, wp_dbcall, wp_raise, wp_pure, wp_conExecute,
         wp_tryCatch, wp_ite, hpc, hg]
       simp only [Option.isSome_none, Bool.false_and, Bool.false_eq_true, if_false, if_true, wp_bind, wp_getS, wp_modS, wp_dbcall,
         wp_raise, wp_pure, wp_ite, wp_conExecute, wp_tryCatch]
       repeat' split
-      all_goals simp_all [G, PoolFr, fkAfter, dirtyAfter]
+      all_goals simp_all [G, PoolFr, fkAfter, dirtyAfter, PF]
 
 theorem wp_releaseLock (Q : Unit → St → Prop) (E) (s) :
     wp releaseLock Q E s = if s.lock then Q () { s with lock := false, trace := Ev.release :: s.trace }
@@ -367,7 +372,6 @@ theorem quiet_facts {cf p n pc pid} (h : FlF cf true p n pc pid) :
     FlF_true_intro hq (by omega) h1 h2, FlF_true_intro hq (by omega) h1 h2, FlF_true_intro hq (by omega) h1 h2,
     FlF_true_intro hq (by omega) h1 h2, FlF_true_intro hq (by omega) h1 h2⟩
 
-set_option maxRecDepth 8192 in
 /-- `SQLiteProvider.set_transaction_mode`: ends holding the lock exactly when it has set `in_transaction` -/
 theorem spec_setTransactionMode (cf : Cfg) (q p : Bool) (con : Nat) (s : St) (hG : G cf q p s)
     (hin : s.cache.inTx = false) (hl : s.lock = false) (hddl : cf.ddl = true → s.cache.immediate = true) :
@@ -388,10 +392,23 @@ theorem spec_setTransactionMode (cf : Cfg) (q p : Bool) (con : Nat) (s : St) (hG
       simp [setTransactionMode, conCursor, hin, himm, hd, hfk, hl, hpre, h0, h1, h2, h3, fkAfter, dirtyAfter] <;>
       simp_all [G, WBF, lockState, phaseOfLock, Phase.step, CFr, Fr3]
   | false =>
-    cases himm : s.cache.immediate <;> cases hd : cf.ddl <;> cases hfk : s.fk <;>
-      simp [setTransactionMode, conCursor, hin, himm, hd, hfk, hl, hpre, fkAfter, dirtyAfter] <;>
-      (try simp only [wp_releaseLock]) <;>
-      (repeat' split) <;> simp_all [G, WBF, lockState, phaseOfLock, Phase.step, CFr, Fr3]
+    cases himm : s.cache.immediate with
+    | false =>
+      have hd : cf.ddl = false := by
+        cases h : cf.ddl
+        · rfl
+        · exact absurd (hddl h) (by simp [himm])
+      clear hddl
+      cases hfk : s.fk <;>
+        simp [setTransactionMode, conCursor, hin, himm, hd, hfk, hl, hpre, fkAfter, dirtyAfter] <;>
+        (try simp only [wp_releaseLock]) <;>
+        (repeat' split) <;> simp_all [G, WBF, lockState, phaseOfLock, Phase.step, CFr, Fr3]
+    | true =>
+      clear hddl
+      cases hd : cf.ddl <;> cases hfk : s.fk <;>
+        simp [setTransactionMode, conCursor, hin, himm, hd, hfk, hl, hpre, fkAfter, dirtyAfter] <;>
+        (try simp only [wp_releaseLock]) <;>
+        (repeat' split) <;> simp_all [G, WBF, lockState, phaseOfLock, Phase.step, CFr, Fr3]
 
 theorem spec_baseRelease (cf : Cfg) (q p : Bool) (con : Nat) (s : St) (hG : G cf q p s) (hc : s.poolCon = some con)
     (hin : s.cache.inTx = false) (hl : s.lock = false) :
